@@ -37,15 +37,18 @@ CONSTANTS Inst,        \* instances holding the same log key
           Stops,           \* TRUE: the sequencer may stop (cancel / sunset)
           LiveRounds,      \* TRUE: MaxRounds bounds only the rounds that start with an empty pool
           CachePutFails,   \* TRUE: the (ignored) error of cachePut is explored
-          CrashInCreate    \* TRUE: CreateLog may be interrupted by a crash
+          CrashInCreate,   \* TRUE: CreateLog may be interrupted by a crash
+          IssuerEntries    \* entries whose chain has the (one, shared) issuer certificate
 
 VARIABLES
     \* durable, shared
     lockVal, pubVal, objs, staging,
+    issuerObj,     \* "absent" or "good": the issuer/<fingerprint> object
     \* durable, per instance (local file)
     cache,
     \* volatile, per instance
     pc, mem, held, pool, inSeq, cur, stopped,
+    issuerKnown,   \* the in-memory set of issuers already uploaded or checked
     \* environment
     clk, faults, crashes, rounds,
     \* submissions
@@ -53,8 +56,8 @@ VARIABLES
     \* history / observation (hidden by VIEW)
     lockHist, pubHist, acks, discardedEarly, cacheLost, act
 
-durable == <<lockVal, pubVal, objs, staging, cache>>
-volatile == <<pc, mem, held, pool, inSeq, cur, stopped>>
+durable == <<lockVal, pubVal, objs, staging, cache, issuerObj>>
+volatile == <<pc, mem, held, pool, inSeq, cur, stopped, issuerKnown>>
 envv == <<clk, faults, crashes, rounds>>
 hist == <<lockHist, pubHist, acks, discardedEarly, cacheLost, act>>
 vars == <<durable, volatile, envv, subs, hist>>
@@ -86,12 +89,13 @@ Up(i) == pc[i] \notin {"down", "absent"} \cup LoadPcs \cup CreatePcs
 Loading(i) == pc[i] \in LoadPcs
 
 Init ==
-    /\ lockVal = NoCp /\ pubVal = NoCp /\ objs = {} /\ staging = {}
+    /\ lockVal = NoCp /\ pubVal = NoCp /\ objs = {} /\ staging = {} /\ issuerObj = "absent"
     /\ cache = [i \in Inst |-> {}]
     /\ pc = [i \in Inst |-> "absent"]
     /\ mem = [i \in Inst |-> NoCp] /\ held = [i \in Inst |-> NoCp]
     /\ pool = [i \in Inst |-> <<>>] /\ inSeq = [i \in Inst |-> {}]
     /\ cur = [i \in Inst |-> NoRound] /\ stopped = [i \in Inst |-> FALSE]
+    /\ issuerKnown = [i \in Inst |-> FALSE]
     /\ clk = 0 /\ faults = 0 /\ crashes = 0 /\ rounds = [i \in Inst |-> 0]
     /\ subs = [s \in SubIds |-> NoSub]
     /\ lockHist = <<>> /\ pubHist = <<>> /\ acks = {} /\ discardedEarly = FALSE
@@ -105,7 +109,7 @@ CreateCheck(i) ==
     /\ pc[i] = "absent"
     /\ pc' = [pc EXCEPT ![i] = IF IsCp(lockVal) \/ IsCp(pubVal) THEN "down" ELSE "c.create"]
     /\ act' = <<"CreateCheck", i>>
-    /\ UNCHANGED <<durable, mem, held, pool, inSeq, cur, stopped, envv, subs, lockHist, pubHist, acks, discardedEarly, cacheLost>>
+    /\ UNCHANGED <<durable, mem, held, pool, inSeq, cur, stopped, envv, subs, lockHist, pubHist, acks, discardedEarly, cacheLost, issuerKnown>>
 
 CreateLock(i, a, o) ==
     /\ pc[i] = "c.create" /\ (o => a) /\ Fault(o)
@@ -117,7 +121,7 @@ CreateLock(i, a, o) ==
           /\ pc' = [pc EXCEPT ![i] = IF o /\ eff THEN "c.upload" ELSE "down"]
           /\ mem' = [mem EXCEPT ![i] = new]
     /\ act' = <<"CreateLock", i, a, o>>
-    /\ UNCHANGED <<pubVal, objs, staging, cache, held, pool, inSeq, cur, stopped, crashes, rounds, subs, pubHist, acks, discardedEarly, cacheLost>>
+    /\ UNCHANGED <<pubVal, objs, staging, cache, held, pool, inSeq, cur, stopped, crashes, rounds, subs, pubHist, acks, discardedEarly, cacheLost, issuerObj, issuerKnown>>
 
 CreateUploadCp(i, a, o) ==
     /\ pc[i] = "c.upload" /\ (o => a) /\ Fault(o)
@@ -125,7 +129,7 @@ CreateUploadCp(i, a, o) ==
     /\ pubHist' = IF a THEN Append(pubHist, mem[i]) ELSE pubHist
     /\ pc' = [pc EXCEPT ![i] = "down"]            \* CreateLog returns; the operator then starts the log
     /\ act' = <<"CreateUploadCp", i, a, o>>
-    /\ UNCHANGED <<lockVal, objs, staging, cache, mem, held, pool, inSeq, cur, stopped, clk, crashes, rounds, subs, lockHist, acks, discardedEarly, cacheLost>>
+    /\ UNCHANGED <<lockVal, objs, staging, cache, mem, held, pool, inSeq, cur, stopped, clk, crashes, rounds, subs, lockHist, acks, discardedEarly, cacheLost, issuerObj, issuerKnown>>
 
 -----------------------------------------------------------------------------
 (* LoadLog *)
@@ -136,6 +140,7 @@ LoadFetchLock(i) ==
     /\ held' = [held EXCEPT ![i] = lockVal] /\ mem' = [mem EXCEPT ![i] = lockVal]
     /\ pool' = [pool EXCEPT ![i] = <<>>] /\ inSeq' = [inSeq EXCEPT ![i] = {}]
     /\ cur' = [cur EXCEPT ![i] = NoRound] /\ stopped' = [stopped EXCEPT ![i] = FALSE]
+    /\ issuerKnown' = [issuerKnown EXCEPT ![i] = FALSE]
     /\ act' = <<"LoadFetchLock", i>>
     /\ UNCHANGED <<durable, envv, subs, lockHist, pubHist, acks, discardedEarly, cacheLost>>
 
@@ -144,7 +149,7 @@ LoadClockBehind(i) ==
     /\ ClockAnomalies /\ pc[i] = "l.pub"
     /\ pc' = [pc EXCEPT ![i] = "down"]
     /\ act' = <<"LoadClockBehind", i>>
-    /\ UNCHANGED <<durable, mem, held, pool, inSeq, cur, stopped, envv, subs, lockHist, pubHist, acks, discardedEarly, cacheLost>>
+    /\ UNCHANGED <<durable, mem, held, pool, inSeq, cur, stopped, envv, subs, lockHist, pubHist, acks, discardedEarly, cacheLost, issuerKnown>>
 
 \* fetch the published checkpoint and compare with the lock checkpoint
 LoadCompare(i) ==
@@ -162,20 +167,20 @@ LoadCompare(i) ==
             ELSE pc' = [pc EXCEPT ![i] = "down"] /\ UNCHANGED cur
        ELSE pc' = [pc EXCEPT ![i] = "l.edge"] /\ UNCHANGED cur
     /\ act' = <<"LoadCompare", i>>
-    /\ UNCHANGED <<durable, mem, held, pool, inSeq, stopped, envv, subs, lockHist, pubHist, acks, discardedEarly, cacheLost>>
+    /\ UNCHANGED <<durable, mem, held, pool, inSeq, stopped, envv, subs, lockHist, pubHist, acks, discardedEarly, cacheLost, issuerKnown>>
 
 LoadApply(i, t, a, o) ==
     /\ pc[i] = "l.apply" /\ t \in cur[i].todo /\ (o => a) /\ Fault(o)
     /\ objs' = IF a THEN objs \cup {Obj(t, cur[i].tree)} ELSE objs
     /\ cur' = [cur EXCEPT ![i].todo = @ \ {t}, ![i].failed = @ \/ ~o]
     /\ act' = <<"LoadApply", i, t.k, t.l, t.n, t.w, a, o>>
-    /\ UNCHANGED <<lockVal, pubVal, staging, cache, pc, mem, held, pool, inSeq, stopped, clk, crashes, rounds, subs, lockHist, pubHist, acks, discardedEarly, cacheLost>>
+    /\ UNCHANGED <<lockVal, pubVal, staging, cache, pc, mem, held, pool, inSeq, stopped, clk, crashes, rounds, subs, lockHist, pubHist, acks, discardedEarly, cacheLost, issuerObj, issuerKnown>>
 
 LoadAwait(i) ==
     /\ pc[i] = "l.apply" /\ (cur[i].todo = {} \/ cur[i].failed)
     /\ pc' = [pc EXCEPT ![i] = IF cur[i].failed THEN "down" ELSE "l.edge"]
     /\ act' = <<"LoadAwait", i>>
-    /\ UNCHANGED <<durable, mem, held, pool, inSeq, cur, stopped, envv, subs, lockHist, pubHist, acks, discardedEarly, cacheLost>>
+    /\ UNCHANGED <<durable, mem, held, pool, inSeq, cur, stopped, envv, subs, lockHist, pubHist, acks, discardedEarly, cacheLost, issuerKnown>>
 
 \* read the right edge through a verifying reader, re-hash the right-most data tile
 LoadEdge(i) ==
@@ -184,14 +189,14 @@ LoadEdge(i) ==
        pc' = [pc EXCEPT ![i] = IF ok THEN "idle" ELSE "down"]
     /\ cur' = [cur EXCEPT ![i] = NoRound]
     /\ act' = <<"LoadEdge", i>>
-    /\ UNCHANGED <<durable, mem, held, pool, inSeq, stopped, envv, subs, lockHist, pubHist, acks, discardedEarly, cacheLost>>
+    /\ UNCHANGED <<durable, mem, held, pool, inSeq, stopped, envv, subs, lockHist, pubHist, acks, discardedEarly, cacheLost, issuerKnown>>
 
 \* any read of LoadLog may fail
 LoadFault(i) ==
     /\ Loading(i) /\ Fault(FALSE)
     /\ pc' = [pc EXCEPT ![i] = "down"]
     /\ act' = <<"LoadFault", i>>
-    /\ UNCHANGED <<durable, mem, held, pool, inSeq, cur, stopped, clk, crashes, rounds, subs, lockHist, pubHist, acks, discardedEarly, cacheLost>>
+    /\ UNCHANGED <<durable, mem, held, pool, inSeq, cur, stopped, clk, crashes, rounds, subs, lockHist, pubHist, acks, discardedEarly, cacheLost, issuerKnown>>
 
 -----------------------------------------------------------------------------
 (* addLeafToPool: one critical section under poolMu *)
@@ -199,8 +204,22 @@ InPool(i, e) == \E k \in DOMAIN pool[i] : pool[i][k].e = e
 FreeSub == {s \in SubIds : subs[s].st = "none"}
 TreeRoom(i) == Len(mem[i].tree) + Len(pool[i]) + Len(cur[i].p) < MaxTree
 
+\* uploadIssuer (under issuersMu, before the pool is touched): fetch the issuer
+\* object; if it is not there upload it; remember it. A submission whose
+\* issuer cannot be stored is refused before it reaches the pool.
+IssuerEnsure(i, a, o) ==
+    /\ Up(i) /\ ~issuerKnown[i] /\ IssuerEntries # {} /\ (o => a)
+    /\ IF issuerObj = "good"
+       THEN a /\ o /\ UNCHANGED <<issuerObj, faults>>
+       ELSE Fault(o) /\ issuerObj' = IF a THEN "good" ELSE issuerObj
+    /\ issuerKnown' = [issuerKnown EXCEPT ![i] = o]
+    /\ act' = <<"IssuerEnsure", i, a, o>>
+    /\ UNCHANGED <<lockVal, pubVal, objs, staging, cache, pc, mem, held, pool, inSeq, cur, stopped, clk, crashes, rounds, subs,
+                   lockHist, pubHist, acks, discardedEarly, cacheLost>>
+
 AddLeaf(i, e) ==
     /\ Up(i) /\ FreeSub # {}
+    /\ (e \in IssuerEntries => issuerKnown[i])
     /\ LET s == CHOOSE s \in FreeSub : \A u \in FreeSub : s <= u
            low == e \in LowEntries
            rec(st, idx, ts) == [e |-> e, i |-> i, low |-> low, adm |-> FALSE, st |-> st, idx |-> idx, ts |-> ts]
@@ -250,7 +269,7 @@ AddLeaf(i, e) ==
             /\ pool' = [pool EXCEPT ![i] = Append(@, [e |-> e, low |-> low])]
             /\ subs' = [subs EXCEPT ![s] = new("pool")]
             /\ UNCHANGED acks /\ act' = <<"AddLeaf", i, e, "admit">>
-    /\ UNCHANGED <<durable, pc, mem, held, inSeq, cur, stopped, envv, lockHist, pubHist, discardedEarly, cacheLost>>
+    /\ UNCHANGED <<durable, pc, mem, held, inSeq, cur, stopped, envv, lockHist, pubHist, discardedEarly, cacheLost, issuerKnown>>
 
 -----------------------------------------------------------------------------
 (* sequence / sequencePool *)
@@ -265,7 +284,7 @@ Rotate(i) ==
     /\ pool' = [pool EXCEPT ![i] = <<>>]
     /\ pc' = [pc EXCEPT ![i] = "guard"]
     /\ act' = <<"Rotate", i>>
-    /\ UNCHANGED <<durable, mem, held, stopped, clk, faults, crashes, lockHist, pubHist, acks, discardedEarly, cacheLost>>
+    /\ UNCHANGED <<durable, mem, held, stopped, clk, faults, crashes, lockHist, pubHist, acks, discardedEarly, cacheLost, issuerKnown>>
 
 \* timestamp := now; fatal unless it progressed past the tree's timestamp
 ClockChoices(i) == IF ClockAnomalies THEN {mem[i].ts - 1, mem[i].ts, clk + 1} ELSE {clk + 1}
@@ -281,7 +300,7 @@ TimeGuard(i, now) ==
                                      ![i].todo = NewTiles(Len(mem[i].tree), Len(nt))]
                /\ pc' = [pc EXCEPT ![i] = IF Len(p) = 0 THEN "cas" ELSE "stage"]
     /\ act' = <<"TimeGuard", i, IF now < mem[i].ts THEN "less" ELSE IF now = mem[i].ts THEN "equal" ELSE "greater">>
-    /\ UNCHANGED <<durable, mem, held, pool, inSeq, stopped, faults, crashes, rounds, subs, lockHist, pubHist, acks, discardedEarly, cacheLost>>
+    /\ UNCHANGED <<durable, mem, held, pool, inSeq, stopped, faults, crashes, rounds, subs, lockHist, pubHist, acks, discardedEarly, cacheLost, issuerKnown>>
 
 \* staging bundle upload: non-fatal on error (the pool fails)
 StageBundle(i, a, o) ==
@@ -290,7 +309,7 @@ StageBundle(i, a, o) ==
     /\ cur' = [cur EXCEPT ![i].bundle = o]
     /\ pc' = [pc EXCEPT ![i] = IF o THEN "cas" ELSE "close"]
     /\ act' = <<"StageBundle", i, a, o>>
-    /\ UNCHANGED <<lockVal, pubVal, objs, cache, mem, held, pool, inSeq, stopped, clk, crashes, rounds, subs, lockHist, pubHist, acks, discardedEarly, cacheLost>>
+    /\ UNCHANGED <<lockVal, pubVal, objs, cache, mem, held, pool, inSeq, stopped, clk, crashes, rounds, subs, lockHist, pubHist, acks, discardedEarly, cacheLost, issuerObj, issuerKnown>>
 
 \* Lock.Replace(held, new): fatal on error; on success the in-memory state advances
 Cas(i, a, o) ==
@@ -305,7 +324,7 @@ Cas(i, a, o) ==
                   /\ pc' = [pc EXCEPT ![i] = "tiles"]
              ELSE /\ pc' = [pc EXCEPT ![i] = "fatal"] /\ UNCHANGED <<mem, held>>
     /\ act' = <<"Cas", i, a, o>>
-    /\ UNCHANGED <<pubVal, objs, staging, cache, pool, inSeq, cur, stopped, clk, crashes, rounds, subs, pubHist, acks, discardedEarly, cacheLost>>
+    /\ UNCHANGED <<pubVal, objs, staging, cache, pool, inSeq, cur, stopped, clk, crashes, rounds, subs, pubHist, acks, discardedEarly, cacheLost, issuerObj, issuerKnown>>
 
 \* applyStagedUploads: the tile uploads run in parallel, in any order
 TileUpload(i, t, a, o) ==
@@ -313,13 +332,13 @@ TileUpload(i, t, a, o) ==
     /\ objs' = IF a THEN objs \cup {Obj(t, cur[i].tree)} ELSE objs
     /\ cur' = [cur EXCEPT ![i].todo = @ \ {t}, ![i].failed = @ \/ ~o]
     /\ act' = <<"TileUpload", i, t.k, t.l, t.n, t.w, a, o>>
-    /\ UNCHANGED <<lockVal, pubVal, staging, cache, pc, mem, held, pool, inSeq, stopped, clk, crashes, rounds, subs, lockHist, pubHist, acks, discardedEarly, cacheLost>>
+    /\ UNCHANGED <<lockVal, pubVal, staging, cache, pc, mem, held, pool, inSeq, stopped, clk, crashes, rounds, subs, lockHist, pubHist, acks, discardedEarly, cacheLost, issuerObj, issuerKnown>>
 
 TilesAwait(i) ==
     /\ pc[i] = "tiles" /\ (cur[i].todo = {} \/ cur[i].failed)
     /\ pc' = [pc EXCEPT ![i] = IF cur[i].failed THEN "fatal" ELSE "pub"]
     /\ act' = <<"TilesAwait", i>>
-    /\ UNCHANGED <<durable, mem, held, pool, inSeq, cur, stopped, envv, subs, lockHist, pubHist, acks, discardedEarly, cacheLost>>
+    /\ UNCHANGED <<durable, mem, held, pool, inSeq, cur, stopped, envv, subs, lockHist, pubHist, acks, discardedEarly, cacheLost, issuerKnown>>
 
 \* checkpoint upload to object storage: unconditional write; non-fatal on error
 PublishCp(i, a, o) ==
@@ -330,7 +349,7 @@ PublishCp(i, a, o) ==
     /\ cur' = [cur EXCEPT ![i].ok = o]
     /\ pc' = [pc EXCEPT ![i] = IF o THEN (IF cur[i].bundle THEN "discard" ELSE "cacheput") ELSE "close"]
     /\ act' = <<"PublishCp", i, a, o>>
-    /\ UNCHANGED <<lockVal, objs, staging, cache, mem, held, pool, inSeq, stopped, clk, crashes, rounds, subs, lockHist, acks, discardedEarly, cacheLost>>
+    /\ UNCHANGED <<lockVal, objs, staging, cache, mem, held, pool, inSeq, stopped, clk, crashes, rounds, subs, lockHist, acks, discardedEarly, cacheLost, issuerObj, issuerKnown>>
 
 \* Discard of the staging bundle; its error is ignored
 DiscardBundle(i, a) ==
@@ -339,7 +358,7 @@ DiscardBundle(i, a) ==
     /\ discardedEarly' = (discardedEarly \/ (a /\ ~IsPrefix(cur[i].tree, pubVal.tree)))
     /\ pc' = [pc EXCEPT ![i] = "cacheput"]
     /\ act' = <<"DiscardBundle", i, a>>
-    /\ UNCHANGED <<lockVal, pubVal, objs, cache, mem, held, pool, inSeq, cur, stopped, envv, subs, lockHist, pubHist, acks, cacheLost>>
+    /\ UNCHANGED <<lockVal, pubVal, objs, cache, mem, held, pool, inSeq, cur, stopped, envv, subs, lockHist, pubHist, acks, cacheLost, issuerObj, issuerKnown>>
 
 RoundLeaves(i) ==
     {[e |-> cur[i].p[k], idx |-> cur[i].old + k - 1, ts |-> cur[i].ts] : k \in DOMAIN cur[i].p}
@@ -351,7 +370,7 @@ CachePut(i, o) ==
     /\ cacheLost' = IF o THEN cacheLost ELSE [cacheLost EXCEPT ![i] = TRUE]
     /\ pc' = [pc EXCEPT ![i] = "close"]
     /\ act' = <<"CachePut", i, o>>
-    /\ UNCHANGED <<lockVal, pubVal, objs, staging, mem, held, pool, inSeq, cur, stopped, envv, subs, lockHist, pubHist, acks, discardedEarly>>
+    /\ UNCHANGED <<lockVal, pubVal, objs, staging, mem, held, pool, inSeq, cur, stopped, envv, subs, lockHist, pubHist, acks, discardedEarly, issuerObj, issuerKnown>>
 
 \* close(p.done): the waiters of the round get their result or the round's error
 ClosePool(i) ==
@@ -367,7 +386,7 @@ ClosePool(i) ==
                      ELSE acks
     /\ pc' = [pc EXCEPT ![i] = IF pc[i] = "fatal" THEN "fatal.clear" ELSE "clear"]
     /\ act' = <<"ClosePool", i>>
-    /\ UNCHANGED <<durable, mem, held, pool, inSeq, cur, stopped, envv, lockHist, pubHist, discardedEarly, cacheLost>>
+    /\ UNCHANGED <<durable, mem, held, pool, inSeq, cur, stopped, envv, lockHist, pubHist, discardedEarly, cacheLost, issuerKnown>>
 
 \* second poolMu section of sequence(); after a fatal error RunSequencer returns
 \* and its deferred function fails the current pool
@@ -382,7 +401,7 @@ ClearInSeq(i) ==
        ELSE UNCHANGED <<stopped, subs, pool>>
     /\ pc' = [pc EXCEPT ![i] = "idle"]
     /\ act' = <<"ClearInSeq", i>>
-    /\ UNCHANGED <<durable, mem, held, envv, lockHist, pubHist, acks, discardedEarly, cacheLost>>
+    /\ UNCHANGED <<durable, mem, held, envv, lockHist, pubHist, acks, discardedEarly, cacheLost, issuerKnown>>
 
 \* RunSequencer returns (context cancelled or read-only date): pending and
 \* future submissions fail, nothing is sequenced any more
@@ -392,7 +411,7 @@ Stop(i) ==
     /\ subs' = [s \in SubIds |-> IF subs[s].i = i /\ subs[s].st = "pool" THEN [subs[s] EXCEPT !.st = "failed"] ELSE subs[s]]
     /\ pool' = [pool EXCEPT ![i] = <<>>]
     /\ act' = <<"Stop", i>>
-    /\ UNCHANGED <<durable, pc, mem, held, inSeq, cur, envv, lockHist, pubHist, acks, discardedEarly, cacheLost>>
+    /\ UNCHANGED <<durable, pc, mem, held, inSeq, cur, envv, lockHist, pubHist, acks, discardedEarly, cacheLost, issuerKnown>>
 
 -----------------------------------------------------------------------------
 (* environment *)
@@ -404,6 +423,7 @@ Crash(i) ==
     /\ pool' = [pool EXCEPT ![i] = <<>>] /\ inSeq' = [inSeq EXCEPT ![i] = {}]
     /\ cur' = [cur EXCEPT ![i] = NoRound] /\ stopped' = [stopped EXCEPT ![i] = FALSE]
     /\ mem' = [mem EXCEPT ![i] = NoCp] /\ held' = [held EXCEPT ![i] = NoCp]
+    /\ issuerKnown' = [issuerKnown EXCEPT ![i] = FALSE]
     \* submitters of a dead process never hear back
     /\ subs' = [s \in SubIds |-> IF subs[s].i = i /\ subs[s].st \in {"pool", "inround"} THEN [subs[s] EXCEPT !.st = "lost"] ELSE subs[s]]
     /\ act' = <<"Crash", i>>
@@ -414,7 +434,7 @@ LoseCache(i) ==
     /\ \E keep \in SUBSET cache[i] : keep # cache[i] /\ cache' = [cache EXCEPT ![i] = keep]
     /\ cacheLost' = [cacheLost EXCEPT ![i] = TRUE]
     /\ act' = <<"LoseCache", i>>
-    /\ UNCHANGED <<lockVal, pubVal, objs, staging, volatile, envv, subs, lockHist, pubHist, acks, discardedEarly>>
+    /\ UNCHANGED <<lockVal, pubVal, objs, staging, volatile, envv, subs, lockHist, pubHist, acks, discardedEarly, issuerObj>>
 
 Next ==
     \E i \in Inst :
@@ -427,6 +447,7 @@ Next ==
                           \/ Cas(i, a, o) \/ PublishCp(i, a, o)
        \/ \E a, o \in B : \E t \in cur[i].todo : LoadApply(i, t, a, o) \/ TileUpload(i, t, a, o)
        \/ \E a \in B : DiscardBundle(i, a) \/ CachePut(i, a)
+       \/ \E a, o \in B : IssuerEnsure(i, a, o)
        \/ Crash(i) \/ LoseCache(i)
 
 Spec == Init /\ [][Next]_vars
@@ -472,6 +493,7 @@ LoadedIsServable == \A i \in Inst : (pc[i] = "idle" /\ ~stopped[i] /\ held[i] = 
 \* C04
 PubBacked == IsCp(pubVal) => Backed(pubVal.tree, objs)
 ImmutableStable == \A x, y \in objs : x.t = y.t => x.c = y.c
+IssuersPresent == IsCp(pubVal) => \A k \in DOMAIN pubVal.tree : pubVal.tree[k].e \in IssuerEntries => issuerObj = "good"
 LeafTimes == IsCp(pubVal) => \A k \in DOMAIN pubVal.tree : pubVal.tree[k].ts <= pubVal.ts
 
 \* C06
